@@ -34,6 +34,9 @@
 //
 // Bounds: quick = single cuts for every exchange, pairs for the 1- and 2-message exchanges; thorough = pairs for
 // every exchange except the maximal-size value (single cuts only, ~2.8 kB wire).  Everything enumerated, nothing sampled.
+// Maximal size: per (class, mode) the largest digit count k for which Send accepts 62^k-1 in exactly that mode is found
+// by binary search; [62^k-1, 1] is relayed uncut, with every single cut and every chunking, and [62^(k-d)-1, 1] for
+// d = 1, 10, 100 uncut and with every chunking: accepted => delivered, and the link must still carry the next message.
 #include "drv.hh"
 #include <libTMCG.hh>
 #include <aiounicast_select.hh>
@@ -377,21 +380,33 @@ static Item one(const std::string &v) { Item i; i.array = false; i.vals.push_bac
 static Item arr(const std::vector<std::string> &v) { Item i; i.array = true; i.vals = v; return i; }
 static Exchange singles(const std::vector<std::string> &v) { Exchange e; for (size_t i = 0; i < v.size(); i++) e.push_back(one(v[i])); return e; }
 
-// the largest value 62^k - 1 that Send accepts in this class/mode (DESIGN: "(TMCG_MAX_VALUE_CHARS/2) - k")
-template<class AIO> static std::string max_value(const Mode &m)
+// the largest k for which Send accepts 62^k - 1 in EXACTLY this class/mode (binary search over the digit count; Send's
+// guard is a threshold on the digit count).  The oracle is "accepted => delivered", whatever the limit is per mode.
+static std::string pow62m1(unsigned long k)
 {
 	mpz_t z; mpz_init(z);
-	std::string res;
-	for (unsigned long k = TMCG_MAX_VALUE_CHARS / 2 + 1; k > TMCG_MAX_VALUE_CHARS / 2 - 8 && res.empty(); k--)
-	{
-		mpz_ui_pow_ui(z, 62, k), mpz_sub_ui(z, z, 1);
-		WireImg w;
-		Exchange e; e.push_back(one(zdec(z)));
-		if (build_wire<AIO>(2, 0, m, e, 50, w, false)) res = zdec(z);
-	}
+	mpz_ui_pow_ui(z, 62, k), mpz_sub_ui(z, z, 1);
+	std::string r = zdec(z);
 	mpz_clear(z);
-	if (res.empty()) die("no maximal value accepted");
-	return res;
+	return r;
+}
+template<class AIO> static bool accepted(const Mode &m, unsigned long k)
+{
+	WireImg w;
+	Exchange e; e.push_back(one(pow62m1(k)));
+	return build_wire<AIO>(2, 0, m, e, 50, w, false);
+}
+template<class AIO> static unsigned long max_digits(const Mode &m)
+{
+	unsigned long lo = 1, hi = 4 * TMCG_MAX_VALUE_CHARS;   // lo accepted, hi refused
+	if (!accepted<AIO>(m, lo)) die("Send refuses a one-digit value");
+	if (accepted<AIO>(m, hi)) die("Send accepts a value of 4*TMCG_MAX_VALUE_CHARS digits; probe range too small");
+	while (hi - lo > 1)
+	{
+		unsigned long mid = lo + (hi - lo) / 2;
+		if (accepted<AIO>(m, mid)) lo = mid; else hi = mid;
+	}
+	return lo;
 }
 
 // ------------------------------------------------------------------------------------------------ cells
@@ -483,7 +498,7 @@ template<class AIO> static void frag_cell(const Cell &C, const Mode &m, size_t s
 			std::string cid = pid + "/-";
 			if (R->selected(cid)) { cuts.clear(); frag_case<AIO>(cid, m, sched, ex, w, cuts, poll, S, cellh); }
 		}
-		for (size_t s1 = 1; s1 < len; s1++)
+		for (size_t s1 = 1; s1 < len && depth >= 1; s1++)
 		{
 			std::string cid = pid + "/" + str(s1);
 			if (R->selected(cid)) { cuts.assign(1, s1); frag_case<AIO>(cid, m, sched, ex, w, cuts, poll, S, cellh); }
@@ -514,7 +529,7 @@ template<class AIO> static void frag_cell(const Cell &C, const Mode &m, size_t s
 			}
 	TOTAL_STATES += S.seen.size(), TOTAL_TRANS += S.transitions;
 	R->sample(C.id + "/pq/" + str(len / 2), "sent " + show(ex) + " wire " + str(len) + " bytes (iv " + str(w.ivlen) + ", " + str(w.msg.size()) + " messages, tag " + str(w.maclen) +
-		"): every cut" + (depth > 1 ? " and pair of cuts" : "") + " x {p1,p2,pq}; " + str(S.seen.size()) + " distinct (state,remaining) pairs");
+		"): " + (depth > 1 ? "every cut and pair of cuts, " : depth == 1 ? "every cut, " : "uncut, ") + "regular chunkings x {p1,p2,pq}; " + str(S.seen.size()) + " distinct (state,remaining) pairs");
 }
 
 template<class AIO> static void add_frag_cells(const Mode *modes, size_t nmodes, bool thorough)
@@ -522,13 +537,20 @@ template<class AIO> static void add_frag_cells(const Mode *modes, size_t nmodes,
 	for (size_t mi = 0; mi < nmodes; mi++)
 	{
 		const Mode m = modes[mi];
-		std::string vmax = max_value<AIO>(m);
+		unsigned long kmax = max_digits<AIO>(m);
+		if (R->args.shard == 0 && !DUP)   // counters are summed over shards and runs: report the limit once
+			R->counters[std::string("max_accepted_digits_") + Tr<AIO>::name() + "_" + m.name] = kmax;
 		struct Ex { const char *name; Exchange e; int dq, dt; bool allsched; };   // depth in quick / thorough
 		std::vector<Ex> exs;
 		const char *sv[] = { "0", "1", "61", "62", V_A.c_str(), V_B.c_str(), V_D.c_str() };
 		const char *sn[] = { "v0", "v1", "v61", "v62", "vA", "vB", "vD" };
 		for (int i = 0; i < 7; i++) { Ex x; x.name = sn[i]; x.e = singles(std::vector<std::string>(1, sv[i])); x.dq = 2, x.dt = 2, x.allsched = (i == 0 || i == 5); exs.push_back(x); }
-		{ Ex x; x.name = "vMAX"; x.e = singles(std::vector<std::string>(1, vmax)); x.dq = 1, x.dt = 1, x.allsched = false; exs.push_back(x); }
+		// the largest value accepted in this mode and values 1, 10, 100 digits below it, each followed by a small message on
+		// the same link (so a link wedged by an oversized line shows as a lost second message as well)
+		{ Ex x; x.name = "vMAX"; x.e = singles({ pow62m1(kmax), "1" }); x.dq = 1, x.dt = 1, x.allsched = false; exs.push_back(x); }
+		{ Ex x; x.name = "vMAXm1"; x.e = singles({ pow62m1(kmax - 1), "1" }); x.dq = 0, x.dt = 0, x.allsched = false; exs.push_back(x); }
+		{ Ex x; x.name = "vMAXm10"; x.e = singles({ pow62m1(kmax - 10), "1" }); x.dq = 0, x.dt = 0, x.allsched = false; exs.push_back(x); }
+		{ Ex x; x.name = "vMAXm100"; x.e = singles({ pow62m1(kmax - 100), "1" }); x.dq = 0, x.dt = 0, x.allsched = false; exs.push_back(x); }
 		{ Ex x; x.name = "s2a"; x.e = singles({ "0", V_B }); x.dq = 2, x.dt = 2, x.allsched = true; exs.push_back(x); }
 		{ Ex x; x.name = "s2b"; x.e = singles({ "61", V_D }); x.dq = 1, x.dt = 2, x.allsched = false; exs.push_back(x); }
 		{ Ex x; x.name = "s2c"; x.e = singles({ V_A, "1" }); x.dq = 1, x.dt = 2, x.allsched = false; exs.push_back(x); }
@@ -552,7 +574,7 @@ template<class AIO> static void add_frag_cells(const Mode *modes, size_t nmodes,
 				Cell C;
 				C.id = std::string("a/") + Tr<AIO>::name() + "/" + m.name + "/" + exs[xi].name + "/" + SCHED_NAME[sched];
 				double L = (double)w.bytes.size();
-				C.cost = (depth > 1 ? L * L / 2 : L) * 3 * (1.0 + L / 600.0) * (sched == 2 ? 4 : 1);
+				C.cost = (depth > 1 ? L * L / 2 : depth == 1 ? L + 160 : 160) * 3 * (1.0 + L / 600.0) * (sched == 2 ? 4 : 1);
 				Exchange ex = exs[xi].e;
 				C.run = [m, sched, ex, w, depth](const Cell &c) { frag_cell<AIO>(c, m, sched, ex, w, depth); };
 				cells.push_back(C);
